@@ -64,15 +64,31 @@ def make_tasks(tier, seed, oracles, layouts=(), layout_depth=2, budget_s=None, p
     return tasks
 
 
+AUDIT_PLAN = [("flow", (), 5, 6), ("tests", (), 4, 5), ("lists", (), 4, 5), ("nondet", (), 4, 5), ("roles", (), 3, 4)]
+
+
+def audit_tasks(tier, seed, oracles):
+    out = []
+    for name, args, dq, dt in AUDIT_PLAN:
+        out.append(dict(scn=name, args=args, depth=dq if tier == "quick" else dt, oracles=list(oracles), layouts=[], layout_depth=0,
+                        seed=seed, budget_s=None, first=None, post=None, audit=True))
+    for c in ("header", "fileinto", "vacation", "hasflag", "size"):
+        out.append(dict(scn="args", args=(c,), depth=3 if tier == "quick" else 4, oracles=list(oracles), layouts=[], layout_depth=0,
+                        seed=seed, budget_s=None, first=None, post=None, audit=True))
+    return out
+
+
 def task(t):
     scn = getattr(S, "scn_" + t["scn"])(*t["args"])
     orcs = [ORACLES[o] for o in t["oracles"]]
     deadline = time.time() + t["budget_s"] if t.get("budget_s") else None
     st, viols = E.bfs(scn, t["depth"], orcs, layouts=t["layouts"], layout_depth=t["layout_depth"],
                       order_seed=t["seed"], first_symbols=t["first"], deadline=deadline,
-                      post=POSTS[t["post"]] if t.get("post") else None, base_layout=t.get("base_layout", "space"))
+                      post=POSTS[t["post"]] if t.get("post") else None, base_layout=t.get("base_layout", "space"),
+                      audit=bool(t.get("audit")))
     return dict(
-        scn=scn["name"], depth=t["depth"], first=t["first"], states=st.states, transitions=st.transitions,
+        audit=dict(groups=st.audit_groups, words=st.audit_words, mismatches=st.audit_mismatches, examples=st.audit_examples) if t.get("audit") else None,
+        scn=scn["name"] + ("/audit" if t.get("audit") else ""), depth=t["depth"], first=t["first"], states=st.states, transitions=st.transitions,
         executions=st.executions, max_depth=st.max_depth, verdicts=st.verdicts, refkinds=st.refkinds,
         nontrivial=list(st.nontrivial), samples=st.samples, capped=st.capped, completions=st.completions,
         layout_runs=st.layout_runs, closer_runs=st.closer_runs, harness_errors=st.harness_errors, violations=viols,
@@ -112,7 +128,11 @@ def assemble(results, extra_cov=None):
         compl += r["completions"]
         closers += r.get("closer_runs", 0)
         lay += r["layout_runs"]
+    audits = [r["audit"] for r in results if r.get("audit")]
     coverage = dict(
+        abstraction_audit=dict(scenarios=len(audits), words_without_dedup=sum(a["words"] for a in audits), key_groups=sum(a["groups"] for a in audits),
+                               one_step_mismatches=sum(a["mismatches"] for a in audits), examples=[e for a in audits for e in a["examples"]][:3])
+        if audits else None,
         states=cov["states"],
         transitions=cov["transitions"],
         traces_validated_against_impl=cov["executions"],
